@@ -165,6 +165,9 @@ func constTerm(c *ssa.Const) Val {
 			return TV{IntC(0), t}
 		}
 		if _, ok := t.Underlying().(*types.Interface); ok {
+			if us := unionSort(t); us != nil {
+				return TV{MkCtor(us.Ctors[0]), t}
+			}
 			return IfaceV{nil, nil, t}
 		}
 		if b, ok := t.Underlying().(*types.Basic); ok && b.Kind() == types.UntypedNil {
